@@ -141,7 +141,7 @@ func (k *check) transparencyJobs() (jobs, post []func()) {
 	})
 	sort.Strings(std)
 	c.Count("std_overlay_packages_requested", len(std))
-	stdShards := 8
+	stdShards := 4
 	for sh := 0; sh < stdShards; sh++ {
 		sh := sh
 		jobs = append(jobs, func() {
